@@ -35,10 +35,22 @@ def envOf (j : Json) : Except String Env := do
   let cd : CharData := { nonPrintable := ← getCharList j "nonprintable", space := ← getCharList j "space",
                          alnum := ← getCharList j "alnum", alpha := ← getCharList j "alpha" }
   let var : Variant := { sortCanonical := getBoolD j "sortCanonical" false, eqFold := getBoolD j "eqFold" false,
-                         emptyDupSafe := getBoolD j "emptyDupSafe" false }
-  pure { var := var, vocab := Schema.Vocab.build fold (tags.map Schema.splitSlash), ns := ← getStr j "ns",
-         attrs := attrs.toArray, mods := mods, unitClasses := classes.toArray,
-         modern := ← getBool j "modern", cd := cd }
+                         emptyDupSafe := getBoolD j "emptyDupSafe" false,
+                         defCharRelocate := getBoolD j "defCharRelocate" false }
+  let ns ← getStr j "ns"
+  let modern ← getBool j "modern"
+  let env0 : Env := { var := var, vocab := Schema.Vocab.build fold (tags.map Schema.splitSlash), ns := ns,
+                      attrs := attrs.toArray, mods := mods, unitClasses := classes.toArray,
+                      modern := modern, cd := cd }
+  -- the definition dictionary: content text of each definition, resolved against the same vocabulary
+  let defs ← (match j.getObjVal? "defs" with
+    | .ok (Json.arr a) => a.toList.mapM fun d => do
+        let text ← getStr d "text"
+        let key ← getStr d "key"
+        let takes ← getBool d "takes"
+        pure ({ key := key, takes := takes, content := resolveList env0 text (Tree.construct text) } : DefEntry)
+    | _ => pure [])
+  pure { env0 with defs := defs }
 
 def pairJson : Option (Nat × Nat) → Json
   | some (a, b) => jarr [jnat a, jnat b]
@@ -58,7 +70,9 @@ def caseJson (env : Env) (j : Json) : Except String Json := do
   let p := parse env text
   pure (jobj [("issues", jarr ((validateP env ph text p).map issueJson)),
               ("raises", jbool (raisesP env ph text p)),
-              ("unmodelled", jbool (unmodelledP env p))])
+              ("unmodelled", jbool (unmodelledP env p)),
+              -- the hypothesis `LookupStable` of `C01.issue_indices_in_tag`, evaluated on this text
+              ("stable", jbool ((tagsList p.root0).all fun t => !t.entry.isSome || decide (canon env t = (t, []))))])
 
 def handle (op : String) (j : Json) : Option (Except String Json) :=
   match op with
